@@ -18,7 +18,7 @@ RULE = ("call lists of length 0..12 over a stateful reference object (counter, l
 ASSUMPTIONS = ["oneway-marked methods and iterator-returning methods are not batched (documented as unsupported)",
                "an exposure failure may surface at submission instead of at its position (the statement allows both)"]
 REQUIRED_REACH = ["batches_submitted_by_other_thread", "shards_with_translating_error_handler", "deferred_result_reading", "copied_batchproxy_equal", "impatient_batch_state_equal", "batch_equal", "failure_at_position", "failure_at_submit", "oneway_equal", "state_compared", "reused_batchproxy_equal", "forgotten_oneway_batch_equal", "long_batches"]
-SHARD_TIMEOUT = {"quick": 200, "thorough": 2400}
+SHARD_TIMEOUT = {"quick": 480, "thorough": 2400}
 
 
 class AppError(Exception):
